@@ -128,47 +128,14 @@ def run(ctx: Ctx, rep: Report) -> None:
         rep.check(ok, "C06-R2", root.path, f"importing puresnmp imports {target} unconditionally (module level, not under if/try)", how, key=f"import|{target}")
 
     # ------------------------------------------------------------ R3
-    pd = PduDecode(ctx)
-    fn = pd.fn
-    order_ok = [r[1] for r in pd.reads[:3]] == ["Integer", "Integer", "Integer"] and any(r[1] == "Sequence" for r in pd.reads[3:])
-    # chained offsets: each read starts where the previous one ended
-    chain_ok = True
-    prev_next = None
-    for var, enf, call, stmt in pd.reads:
-        start = call.args[1] if len(call.args) > 1 else next((kw.value for kw in call.keywords if kw.arg == "start_index"), None)
-        if prev_next is not None and (start is None or norm(start) != prev_next):
-            # the error branch re-reads from the same offset as the normal branch
-            if not (start is not None and norm(start) == prev_prev):
-                chain_ok = False
-        tgt = stmt.targets[0]
-        prev_prev = prev_next
-        prev_next = norm(tgt.elts[1])
-    rep.check(order_ok and chain_ok, "C06-R3", fn.site(), "PDU.decode_raw reads request-id, error-status, error-index (INTEGER) and the binding list (SEQUENCE) consecutively", f"reads: {[(r[0], r[1]) for r in pd.reads]}", key=f"{fn.key}|read-order")
-    content = ctx.u.cls("puresnmp.pdu:PDUContent")
-    rets = [n for n in own_nodes(fn.node) if isinstance(n, ast.Return) and isinstance(n.value, ast.Call) and ctx.r.resolve_class(fn.module, n.value.func) == content]
-    ok = len(rets) == 1
-    detail = ""
-    if ok:
-        b = bind_call_args(rets[0].value, dataclass_fields(content), skip_self=False)
-        want = {"request_id": f"{pd.request_id}.value", "error_status": f"{pd.error_status}.value", "error_index": f"{pd.error_index}.value"}
-        fdefs = ctx.defs(fn)
-        got = {k: norm(fdefs.expand(v, stop=[pd.request_id, pd.error_status, pd.error_index])) for k, v in b.items()}
-        ok = all(got.get(k) == v for k, v in want.items())
-        detail = f"{got}"
-        # varbinds: built from the Sequence read, in order
-        vb = b.get("varbinds")
-        seq_vars = [r[0] for r in pd.seq_reads]
-        okv = False
-        if isinstance(vb, ast.Name):
-            for n in own_nodes(fn.node):
-                if isinstance(n, ast.For) and norm(n.iter) in seq_vars and isinstance(n.target, ast.Tuple) and len(n.target.elts) == 2:
-                    t0, t1 = norm(n.target.elts[0]), norm(n.target.elts[1])
-                    for c in ast.walk(n):
-                        if isinstance(c, ast.Call) and isinstance(c.func, ast.Attribute) and c.func.attr == "append" and norm(c.func.value) == vb.id and len(c.args) == 1 and norm(c.args[0]) == f"VarBind({t0}, {t1})":
-                            okv = True
-        ok = ok and okv
-        detail += f"; bindings rebuilt in order: {okv}"
-    rep.check(ok, "C06-R3", fn.site(), "the decoded fields are bound to PDUContent by name: request_id, varbinds (oid, value pairs in wire order), error_status, error_index", detail, key=f"{fn.key}|field-binding")
+    from .common import PduEval
+
+    pe = PduEval(ctx)
+    if pe.run(7, 0, 0, 2)[0] != "uneval":
+        pdu_fields_by_evaluation(ctx, rep, pe)
+    else:
+        rep.info(f"PDU.decode_raw is not followed by the evaluator ({pe.run(7, 0, 0, 2)[1]}); reading its structure instead")
+        pdu_fields_structurally(ctx, rep)
 
     adt = "puresnmp.adt"
     msg = ctx.u.cls(f"{adt}:Message")
@@ -177,9 +144,12 @@ def run(ctx: Ctx, rep: Report) -> None:
     flags = ctx.u.cls(f"{adt}:V3Flags")
     fs = msg.methods["from_sequence"]
     seq = fs.params[1]
+    evaluated = message_decode_by_evaluation(ctx, rep, fs, msg, header, spdu, flags)
     calls = [n for n in own_nodes(fs.node) if isinstance(n, ast.Call)]
     ctor = [c for c in calls if isinstance(c.func, ast.Name) and c.func.id == fs.params[0]]
-    if len(ctor) != 1:
+    if evaluated:
+        pass  # decided semantically; the structural reading below is the fallback for code the evaluator cannot follow
+    elif len(ctor) != 1:
         rep.undecided("C06-R3", fs.site(), "Message.from_sequence builds cls(...) once", f"{len(ctor)}")
     else:
         m = index_map(ctx, fs, ctor[0], dataclass_fields(msg), [seq])
@@ -210,7 +180,7 @@ def run(ctx: Ctx, rep: Report) -> None:
                     sm = index_map(ctx, fs, sp_ctor, dataclass_fields(spdu), [seq])
                     pay_ok = f"{seq}[3]" in enc_side and sm == {"context_engine_id": f"{seq}[3][0]", "context_name": f"{seq}[3][1]", "data": f"{seq}[3][2]"}
         rep.check(pay_ok, "C06-R3", fs.site(), "payload <- [3]: ciphertext as is when the priv flag is set, else ScopedPDU(contextEngineID [0], contextName [1], data [2])", key=f"{fs.key}|payload-map")
-    sd = spdu.methods["decode"]
+    sd = ctx.inlined(spdu.methods["decode"])  # the field mapping may live in a helper (ScopedPDU.from_sequence)
     sctor = [n for n in own_nodes(sd.node) if isinstance(n, ast.Call) and ctx.r.resolve_class(sd.module, n.func) == spdu]
     if len(sctor) == 1:
         sm = index_map(ctx, sd, sctor[0], dataclass_fields(spdu), [])
@@ -377,3 +347,132 @@ def import_reaches(ctx: Ctx, mod: Module, target: str, seen) -> Tuple[bool, str]
                     if ok:
                         return True, f"{mod.name} -> {how}"
     return False, f"no unconditional import chain from {mod.name}"
+
+
+def message_decode_by_evaluation(ctx: Ctx, rep: Report, fs: FuncInfo, msg: ClassInfo, header: ClassInfo, spdu: ClassInfo, flags: ClassInfo) -> bool:
+    """
+    Message.from_sequence evaluated (engine/minieval.py) on a symbolic SNMPv3 message sequence, once per flag
+    octet: every field of the result must be the element RFC 3412 puts at that position.  Returns False when the
+    code cannot be followed by the evaluator (the caller then falls back to reading its structure).
+    """
+    from ..engine.minieval import ClassRef, Instance, MiniEval, Raised, Sym, Unevaluable
+
+    integer = ctx.u.cls("x690.types:Integer")
+    octets = ctx.u.cls("x690.types:OctetString")
+
+    def x690_int(v: int) -> "Instance":
+        inst = Instance(integer, [], {})
+        inst.attrs.update(value=v, pyvalue=v)
+        return inst
+
+    def x690_octets(v) -> "Instance":
+        inst = Instance(octets, [], {})
+        inst.attrs.update(value=v, pyvalue=v)
+        return inst
+
+    results = []
+    # every field over its interesting values: all flag octets x msgMaxSize / msgID at and around the protocol limits
+    # (a decoder that clamps or masks a field differs from the wire only beyond such a limit)
+    grid = [(o, 65000, 4711) for o in (0x00, 0x01, 0x03, 0x04, 0x05, 0x07)] + [(0x05, ms, mid) for ms in (484, 1472, 65507, 65508, 65535, 2**31 - 1) for mid in (0, 2**31 - 1)] + [(0x04, 65507, mid) for mid in (2**31, 2**32 - 1, 2**32 + 5)]
+    for octet, max_size_v, msg_id_v in grid:
+        version, msg_id, max_size, model = x690_int(3), x690_int(msg_id_v), x690_int(max_size_v), x690_int(3)
+        secparams = x690_octets(Sym("security-parameter-octets"))
+        eid, cname, pdu = x690_octets(Sym("context-engine-id")), x690_octets(Sym("context-name")), Sym("pdu")
+        priv = bool(octet & rfc.MSGFLAG_PRIV)
+        payload = x690_octets(Sym("ciphertext")) if priv else [eid, cname, pdu]
+        seq = [version, [msg_id, max_size, x690_octets(bytes([octet])), model], secparams, payload]
+        try:
+            got = MiniEval(ctx).call_function(fs, [ClassRef(msg), seq])
+        except Unevaluable as exc:
+            rep.info(f"Message.from_sequence is not followed by the evaluator ({exc}); falling back to its structure")
+            return False
+        except Raised as exc:
+            results.append((f"{octet:#04x}, msgMaxSize {max_size_v}, msgID {msg_id_v}", False, f"raises {exc.value!r}"))
+            continue
+        ok = isinstance(got, Instance) and ctx.r.is_subclass(got.cls, msg)
+        detail = repr(got)
+        if ok:
+            f = got.attrs
+            hd = f.get("header")
+            ok = f.get("version") is version and f.get("security_parameters") == Sym("security-parameter-octets") and isinstance(hd, Instance) and hd.cls.key == header.key
+            if ok:
+                h = hd.attrs
+                fl = h.get("flags")
+                ok = h.get("message_id") == msg_id_v and h.get("message_max_size") == max_size_v and h.get("security_model") == 3 and isinstance(fl, Instance) and fl.cls.key == flags.key
+                ok = ok and {k: bool(fl.attrs.get(k)) for k in ("auth", "priv", "reportable")} == {"auth": bool(octet & rfc.MSGFLAG_AUTH), "priv": priv, "reportable": bool(octet & rfc.MSGFLAG_REPORTABLE)}
+            if ok:
+                sp = f.get("scoped_pdu")
+                if priv:
+                    ok = sp is payload
+                else:
+                    ok = isinstance(sp, Instance) and sp.cls.key == spdu.key and sp.attrs.get("context_engine_id") is eid and sp.attrs.get("context_name") is cname and sp.attrs.get("data") == pdu
+        results.append((f"{octet:#04x}, msgMaxSize {max_size_v}, msgID {msg_id_v}", ok, detail))
+    for octet, ok, detail in results:
+        rep.check(ok, "C06-R3", fs.site(), f"Message.from_sequence (msgFlags {octet}): version <- [0], header <- [1] = (msgID, msgMaxSize, msgFlags, securityModel), security parameters <- [2], payload <- [3] (ciphertext as is with the priv flag, else ScopedPDU(contextEngineID, contextName, data))", detail[:300], key=f"{fs.key}|index-map")
+    return True
+
+
+def pdu_fields_by_evaluation(ctx: Ctx, rep: Report, pe) -> None:
+    """PDU.decode_raw evaluated on a modelled TLV stream: each field of the result is the element RFC 3416 puts there."""
+    from ..engine.minieval import Instance
+
+    fn = pe.fn
+    content = ctx.u.cls("puresnmp.pdu:PDUContent")
+    vb_cls = ctx.u.cls("puresnmp.varbind:VarBind")
+    for rid, index, count in ((7, 0, 0), (4711, 0, 1), (2**31 - 1, 3, 3), (0, 1, 5), (-5, 0, 2)):
+        kind, val, (oids, vals) = pe.run(rid, 0, index, count)
+        text = f"request-id {rid}, error-index {index}, {count} binding(s): PDUContent(request_id <- 1st INTEGER, error_status <- 2nd, error_index <- 3rd, varbinds <- the SEQUENCE's (oid, value) pairs in wire order)"
+        if kind == "uneval":
+            rep.undecided("C06-R3", fn.site(), text, f"not evaluable: {val}")
+            continue
+        ok = kind == "return" and isinstance(val, Instance) and val.cls.key == content.key
+        if ok:
+            a = val.attrs
+            vbs = a.get("varbinds")
+            ok = a.get("request_id") == rid and a.get("error_status") == 0 and a.get("error_index") == index and isinstance(vbs, list) and len(vbs) == count
+            ok = ok and all(isinstance(v, Instance) and v.cls.key == vb_cls.key and (v.attrs.get("oid") if "oid" in v.attrs else (v.args[0] if v.args else None)) is o and (v.attrs.get("value") if "value" in v.attrs else (v.args[1] if len(v.args) > 1 else None)) == x for v, o, x in zip(vbs, oids, vals))
+        rep.check(ok, "C06-R3", fn.site(), text, f"{kind}: {val!r}"[:300], key=f"{fn.key}|field-binding")
+
+
+def pdu_fields_structurally(ctx: Ctx, rep: Report) -> None:
+    pd = PduDecode(ctx)
+    fn = pd.fn
+    order_ok = [r[1] for r in pd.reads[:3]] == ["Integer", "Integer", "Integer"] and any(r[1] == "Sequence" for r in pd.reads[3:])
+    # chained offsets: each read starts where the previous one ended
+    chain_ok = True
+    prev_next = None
+    for var, enf, call, stmt in pd.reads:
+        start = call.args[1] if len(call.args) > 1 else next((kw.value for kw in call.keywords if kw.arg == "start_index"), None)
+        if prev_next is not None and (start is None or norm(start) != prev_next):
+            # the error branch re-reads from the same offset as the normal branch
+            if not (start is not None and norm(start) == prev_prev):
+                chain_ok = False
+        tgt = stmt.targets[0]
+        prev_prev = prev_next
+        prev_next = norm(tgt.elts[1])
+    rep.check(order_ok and chain_ok, "C06-R3", fn.site(), "PDU.decode_raw reads request-id, error-status, error-index (INTEGER) and the binding list (SEQUENCE) consecutively", f"reads: {[(r[0], r[1]) for r in pd.reads]}", key=f"{fn.key}|read-order")
+    content = ctx.u.cls("puresnmp.pdu:PDUContent")
+    rets = [n for n in own_nodes(fn.node) if isinstance(n, ast.Return) and isinstance(n.value, ast.Call) and ctx.r.resolve_class(fn.module, n.value.func) == content]
+    ok = len(rets) == 1
+    detail = ""
+    if ok:
+        b = bind_call_args(rets[0].value, dataclass_fields(content), skip_self=False)
+        want = {"request_id": f"{pd.request_id}.value", "error_status": f"{pd.error_status}.value", "error_index": f"{pd.error_index}.value"}
+        fdefs = ctx.defs(fn)
+        got = {k: norm(fdefs.expand(v, stop=[pd.request_id, pd.error_status, pd.error_index])) for k, v in b.items()}
+        ok = all(got.get(k) == v for k, v in want.items())
+        detail = f"{got}"
+        # varbinds: built from the Sequence read, in order
+        vb = b.get("varbinds")
+        seq_vars = [r[0] for r in pd.seq_reads]
+        okv = False
+        if isinstance(vb, ast.Name):
+            for n in own_nodes(fn.node):
+                if isinstance(n, ast.For) and norm(n.iter) in seq_vars and isinstance(n.target, ast.Tuple) and len(n.target.elts) == 2:
+                    t0, t1 = norm(n.target.elts[0]), norm(n.target.elts[1])
+                    for c in ast.walk(n):
+                        if isinstance(c, ast.Call) and isinstance(c.func, ast.Attribute) and c.func.attr == "append" and norm(c.func.value) == vb.id and len(c.args) == 1 and norm(c.args[0]) == f"VarBind({t0}, {t1})":
+                            okv = True
+        ok = ok and okv
+        detail += f"; bindings rebuilt in order: {okv}"
+    rep.check(ok, "C06-R3", fn.site(), "the decoded fields are bound to PDUContent by name: request_id, varbinds (oid, value pairs in wire order), error_status, error_index", detail, key=f"{fn.key}|field-binding")
